@@ -10,7 +10,7 @@ from mc.proc_driver import replay as _replay
 META = {
     "kind": "graph",
     "engine": "E2 BFS to fixpoint over tick histories of the real ProcessManager.start() on a fake OS",
-    "rule": "for every (workers in 1..3, max_fails in {-1,0,1,2,3}) all tick histories over the alphabet {subset of workers dies} x {none, SIGHUP, SIGINT, SIGTERM, file change} x {subset of restarted workers crash at start} (+ bounded deviations) are explored breadth-first with de-duplication on the canonical state (per-slot process state, action queue, restart counter read from the suspended frame, monitor state) until no new state appears (fixpoint); in addition every history of 6 (quick) / 8 (thorough) ticks over the 5-letter alphabet {nothing, SIGHUP, file change, worker 0 dies, SIGINT} is run without state matching (guard against state the canonical form cannot see). Oracle C17: at every Process.start() no other live process has the same slot name and the previous occupant was joined; the number and names of slots never change; a worker observed dead at a scan is replaced by the end of the next tick unless the manager returned. distinct_nontrivial = distinct (configuration, exit, facts) outcomes.",
+    "rule": "for every (workers in 1..3, max_fails in {-1,0,1,2,3}) all tick histories over the alphabet {subset of workers dies} x {none, SIGHUP, SIGINT, SIGTERM, file change} x {subset of restarted workers crash at start} (+ bounded deviations) are explored breadth-first with de-duplication on the canonical state (per-slot process state, action queue, every local variable of the suspended start() frame and every plain attribute of the manager - so state a change adds there is never merged away -, monitor state) until no new state appears (fixpoint); in addition every history of 6 (quick) / 8 (thorough) ticks over the 5-letter alphabet {nothing, SIGHUP, file change, worker 0 dies, SIGINT} is run without state matching (guard against state the canonical form cannot see). Oracle C17: at every Process.start() no other live process has the same slot name and the previous occupant was joined; the number and names of slots never change; a worker that died in tick t (ground truth of the fake OS, whether or not the manager looked at it) is replaced by the end of tick t+1 unless the manager returned. distinct_nontrivial = distinct (configuration, exit, facts) outcomes.",
     "assumptions": [
         "fake multiprocessing.Process/Queue/Event, os.kill, signal.signal, sleep stand for the OS (Linux semantics: kill on a reaped pid raises ProcessLookupError, on a zombie succeeds; is_alive()/join() reap)",
         "per tick: any subset of workers dies, at most one signal/file event, any subset of restarted workers crashes before its start-up wait; deviations (signal between drain and scan, Queue.empty() lag) bounded per history",
